@@ -13,7 +13,9 @@ from ..refmodels import multiphase as mp
 KRS = [dict(exps=(1.0, 1.0, 1.0), res=(0.0, 0.1, 0.0), ends=(1.0, 1.0, 1.0)),
        dict(exps=(2.0, 1.5, 3.0), res=(0.1, 0.1, 0.05), ends=(0.9, 0.4, 1.0)),
        dict(exps=(3.7, 2.0, 1.5), res=(0.2, 0.1, 0.0), ends=(1.0, 1.0, 0.6)),
-       dict(exps=(1.0, 6.0, 2.0), res=(0.0, 0.1, 0.1), ends=(0.5, 1.0, 1.0))]
+       dict(exps=(1.0, 6.0, 2.0), res=(0.0, 0.1, 0.1), ends=(0.5, 1.0, 1.0)),
+       # mobile water (Sw above its residual): the water term of the mobility is non-zero
+       dict(exps=(2.0, 1.5, 2.0), res=(0.1, 0.1, 0.05), ends=(0.9, 0.7, 1.0), sw=0.3)]
 RHOS = [{"rho_o0": 141.5 / (45 + 131.5), "rho_g0": 1.03e-3, "rho_w0": 1.0},
         {"rho_o0": 52.0, "rho_g0": 0.06, "rho_w0": 63.0}]
 
@@ -50,6 +52,8 @@ def evaluate(case):
     tb = get_table(case)
     p, So = tb["pressure"], tb["So"]
     krt = mp.kr_table(**KRS[case["kr"]])
+    if So.max() > krt["So"].max():  # the table's oil saturations must lie inside the rel-perm table
+        return {"violations": [], "evals": 0, "outcome": "n/a"}
     rho = {k: v * case["factor"] for k, v in RHOS[case["rho"]].items()}
     pvt, kr = mp.interp_pvt(tb, rho), mp.interp_kr(krt)
     snap = {k: v.copy() for k, v in tb.items()}
@@ -97,7 +101,7 @@ def evaluate(case):
                 warnings.simplefilter("ignore")
                 try:
                     krt_in = {k: v[::-1].copy() for k, v in krt.items()} if case.get("kr_desc") else krt
-                    fl = fp.FlowPropertiesTwoPhase.from_table(tbf, krt_in, rho, 0.1, 0.1, p_i)
+                    fl = fp.FlowPropertiesTwoPhase.from_table(tbf, krt_in, rho, 0.1, KRS[case["kr"]].get("sw", 0.1), p_i)
                 except Exception as e:  # noqa: BLE001
                     viol.append(V("from_table/raises", f"{type(e).__name__}: {e}", case=case))
                     break
